@@ -193,19 +193,25 @@ _LEDGER_RULE = ('(tx) generated ledger states on a REAL fsm.StateMachine (valida
                 'unstake, pause, unpause, subsidy, DAO transfer, create / edit / delete order) with valid, boundary and invalid amounts, applied one by '
                 'one through ApplyTransactions; the full ledger scan before and after is compared with the model (M) and judged by the property '
                 'predicates (V); (fail) failing transactions of ALL kinds incl. unmodelled ones (certificate results, parameter changes, DEX messages): '
-                'scan before = scan after, parameters included; (chain) real multi-block chains with rewards, scripted non-signers and double-signers '
+                'scan before = scan after, parameters included; (block actions) the real DistributeCommitteeRewards on a scanned state for a committee whose pool was just '
+                'funded - recipients: compounding / non-compounding / unstaking / paused validators, delegates, plain and not-yet-existing accounts, 1-3 samples, '
+                'percents up to 100 per sample - and the real FundCommitteeRewardPools at the current and far later heights (halvenings), both compared with '
+                'model/LedgerBlock.v (M) and judged (V: conservation, nothing created by rewards, pool emptied, never more than the scheduled mint, never fails); '
+                '(rejected blocks, C07) twin nodes: one fully executes and then drops extra blocks, the next common block must give the same header and state; '
+                '(chain) real multi-block chains with rewards, scripted non-signers and double-signers '
                 '(slashes incl. 100% and stake rounding to zero), governance parameter changes, auto-compounding, deferred unstaking and max-pause '
                 'firing at later heights: scan after every block judged by the predicates, and every block must be producible; distinct by literal; '
                 'non-trivial: transactions that were applied, blocks with at least one transaction or slash')
 _LEDGER_MODELLED = ('hand-modelled (model/Ledger.v): accounts, pools, validators, supply tallies, unstaking / paused markers, sell orders; handlers of 11 '
                     'message kinds, ApplyTransaction (fee, nested transaction discarded on error), SlashValidator, ForceUnstakeMaxPaused, '
-                    'DeleteFinishedUnstaking, DeleteValidator. Generated from source: SafeMulDiv / percent helpers, pool id addends, MaxChainId. NOT in the '
-                    'model (judged by the predicates on scans of the real chain only): block mint and reward distribution, certificate-result processing, '
+                    'DeleteFinishedUnstaking, DeleteValidator; (model/LedgerBlock.v) the scheduled mint (GetBlockMintStats split, FundCommitteeRewardPools) and the reward '
+                    'distribution of a committee (DistributeCommitteeRewards / DistributeCommitteeReward incl. the unchecked burn subtraction). Generated from source: SafeMulDiv / percent helpers, pool id addends, MaxChainId. NOT in the '
+                    'model (judged by the predicates on scans of the real chain only): the choice of subsidized committees, certificate-result processing (accumulation of payment percents), '
                     'committee swaps, parameter changes, the DEX pipeline (C20 has its own model), vesting, faucet.')
 
 PROPS['C04'] = dict(
     props='props/C04.v',
-    models=['Ledger', 'LedgerCheck'],
+    models=['Ledger', 'LedgerCheck', 'LedgerBlock', 'LedgerBlockCheck'],
     harness='c04',
     args=dict(quick=['-prop', '4', '-states', '8', '-txs', '30', '-chains', '3', '-blocks', '20'],
               escalated=['-prop', '4', '-states', '20', '-txs', '40', '-chains', '6', '-blocks', '30'],
@@ -214,14 +220,15 @@ PROPS['C04'] = dict(
     rule=_LEDGER_RULE,
     modelled=_LEDGER_MODELLED,
     assumptions=['amounts and fees are uint64', 'the total supply stays below 2^64 (stated as a hypothesis of the history theorem; the implementation checks additions to the total)',
-                 'order ids are transaction hashes: a created order never reuses the id of an open order', 'slashes name committee members, not delegates'],
-    trusted_base=['model/Ledger.v is a hand-written mirror of the fsm ledger primitives and handlers tied by the transaction-level correspondence run on the real FSM'],
+                 'order ids are transaction hashes: a created order never reuses the id of an open order', 'slashes name committee members, not delegates',
+                 'the payment percents of a committee add up to at most 100 per sample (maintained by CertificateResult.CheckBasic and UpsertCommitteeData; hypothesis stubs_ok of the reward theorems)'],
+    trusted_base=['model/LedgerBlock.v mirrors GetBlockMintStats / FundCommitteeRewardPools / DistributeCommitteeRewards / DistributeCommitteeReward, tied by the reward and mint cases on the real FSM', 'model/Ledger.v is a hand-written mirror of the fsm ledger primitives and handlers tied by the transaction-level correspondence run on the real FSM'],
     level_text='Unbounded theorems over the ledger model: on every state reachable by any history of transactions (applied or failed), slashes and deferred end-block actions the recorded total equals accounts + pools + stakes and nothing wraps; a transaction changes the total only by the DAO mint it carries, a slash burns exactly what the validator loses, the deferred actions only move tokens. The model is compared with the real FSM transaction by transaction on every check; block mint, rewards, parameter changes and the DEX are outside the model and are judged on scans of real generated chains by the same predicate (partial).',
-    level_note='Partial: the mint/reward/certificate-result part of the property is validated by the chain-level predicate on real chains, not proved. Trusted: Coq kernel, translator, hand-written mirror tied by correspondence.',
+    level_note='The scheduled mint and the reward distribution are modelled (model/LedgerBlock.v), proved (whole-block history theorem) and compared with the real FundCommitteeRewardPools / DistributeCommitteeRewards on scanned states. Partial: which committees are subsidized and how payment percents are accumulated from certificate results are inputs of the model (observed); non-sign slashing windows and parameter changes are judged on real chains by the scan predicate. Trusted: Coq kernel, translator, hand-written mirror tied by correspondence.',
 )
 PROPS['C07'] = dict(
     props='props/C07.v',
-    models=['Ledger', 'LedgerCheck'],
+    models=['Ledger', 'LedgerCheck', 'LedgerBlock', 'LedgerBlockCheck'],
     harness='c04',
     args=dict(quick=['-prop', '7', '-states', '8', '-txs', '30', '-chains', '2', '-blocks', '12'],
               escalated=['-prop', '7', '-states', '20', '-txs', '40', '-chains', '4', '-blocks', '20'],
@@ -237,7 +244,7 @@ PROPS['C07'] = dict(
 )
 PROPS['C12'] = dict(
     props='props/C12.v',
-    models=['Ledger', 'LedgerCheck'],
+    models=['Ledger', 'LedgerCheck', 'LedgerBlock', 'LedgerBlockCheck'],
     harness='c04',
     args=dict(quick=['-prop', '12', '-states', '8', '-txs', '30', '-chains', '3', '-blocks', '24'],
               escalated=['-prop', '12', '-states', '20', '-txs', '40', '-chains', '6', '-blocks', '36'],
@@ -249,7 +256,7 @@ PROPS['C12'] = dict(
                  'slashes name committee members, not delegates (SlashValidator is not delegate-aware: observation O-7)'],
     trusted_base=['model/Ledger.v (see C04)'],
     level_text='Unbounded theorems over the ledger model: on every reachable state the total / delegated / per-committee tallies equal the sums over validator records and the unstaking / paused markers are exactly the validators in that status; from such a state no admissible history can fail - finish-unstaking, force-unstake and slashes always succeed at every future height (the old DeleteValidator is proved to wedge). The model is compared with the real FSM per transaction; on real chains every block must be producible and every scan consistent. Parameter changes and reward compounding are judged on the real chains only (partial).',
-    level_note='Partial for governance parameter changes, auto-compounding rewards and non-sign windows (outside the model; exercised on real chains).',
+    level_note='Auto-compounding rewards and the scheduled mint are modelled and proved never to fail on reachable states (model/LedgerBlock.v). Partial for governance parameter changes and non-sign windows (outside the model; exercised on real chains).',
 )
 
 PROPS['C01'] = dict(
@@ -484,7 +491,7 @@ PROPS['C09'] = dict(
 
 PROPS['C05'] = dict(
     props='props/C05.v',
-    models=['Ledger', 'LedgerCheck', 'Auth'],
+    models=['Ledger', 'LedgerCheck', 'LedgerBlock', 'LedgerBlockCheck', 'Auth'],
     harness='c04',
     args=dict(quick=['-prop', '5', '-states', '6', '-txs', '40'], escalated=['-prop', '5', '-states', '16', '-txs', '50'], thorough=['-prop', '5', '-states', '80', '-txs', '60']),
     fingerprint_groups=['Auth', 'Ledger'],
